@@ -31,11 +31,19 @@ NOTE = ("Trusted: Lean 4.33.0 kernel; axioms ⊆ {propext, Classical.choice, Quo
         "the hand-written Lean model of the Rust code, tied to /repo only by the differential correspondence run (jpserve vs jpdriver on generated, bounded-exhaustive and corpus lines); "
         "the Rust harness, its law oracles and /verif/check; std/serde_json/toml semantics as listed in DESIGN.md §6; usize = 64 bit. ")
 TIE = {
- "C01": "validate_bytes, Token::{from_encoded,new,decoded}, the seven range `get` impls and 13 `Pointer` methods",
+ "C01": "validate_bytes, Token::{from_encoded,new,decoded}, the seven range `get` impls, 13 `Pointer` methods, `from_tokens` and the seven `PointerBuf` mutators",
  "C02": "validate_bytes", "C14": "validate_bytes", "C03": "Token::from_encoded, Token::new, Token::decoded",
- "C04": "Pointer::{is_root,count,back,front}", "C12": "the seven `PointerIndex::get` impls, split_front, split_at, split_back, parent",
- "C13": "Pointer::{starts_with,strip_prefix,ends_with,strip_suffix,intersection,is_root,split_at}",
- "C16": "Index::{for_len,for_len_incl,for_len_unchecked}",
+ "C04": "Pointer::{is_root,count,back,front} and PointerBuf::from_tokens", "C12": "the seven `PointerIndex::get` impls, split_front, split_at, split_back, parent",
+ "C13": "Pointer::{starts_with,strip_prefix,ends_with,strip_suffix,intersection,is_root,split_at} and PointerBuf::append",
+ "C16": "Index::from_str and Index::{for_len,for_len_incl,for_len_unchecked}",
+ "C11": "PointerBuf::{push_front,push_back,pop_front,pop_back,append,replace,clear,from_tokens}",
+ "C05": "the four `resolve`/`resolve_mut` walks (json and toml), `parse_index`, `Index::from_str`, `Index::for_len`",
+ "C09": "the four `resolve`/`resolve_mut` walks (json and toml), `parse_index`, `Index::from_str`, `Index::for_len`",
+ "C15": "the four `resolve`/`resolve_mut` walks (json and toml), `parse_index`, `Index::from_str`, `Index::for_len` (assign's own walk is not translated)",
+ "C08": "the `resolve_mut` walks `delete` is built on, `Index::from_str`, `Index::for_len` (`delete` itself is not translated)",
+ "C10": "the `resolve`/`resolve_mut` walks, `Index::from_str`, `Index::for_len` (`assign` and `delete` are not translated)",
+ "C06": "Index::from_str and Index::for_len_incl (`assign`/`expand` themselves are not translated)",
+ "C07": "Index::from_str and Index::for_len_incl (`assign`/`expand` themselves are not translated)",
  "C19": "the token, range-slicing, splitting and prefix/suffix functions listed for C03, C12, C13, C04",
 }
 def tie_text(pid):
